@@ -85,12 +85,44 @@ func (a *avPt) store(v int)           { a.v.Store(mkpt(v)) }
 func (a *avPt) swap(v int) int        { return unpt(a.v.Swap(mkpt(v))) }
 func (a *avPt) cas(old, new int) bool { return a.v.CompareAndSwap(mkpt(old), mkpt(new)) }
 
+// avIface: T is an INTERFACE type (fmt.Stringer) holding values of one named integer type
+type strv int
+
+func (s strv) String() string { return fmt.Sprint(int(s)) }
+
+type avIface struct {
+	v sync2.AtomicValue[fmt.Stringer]
+}
+
+func (a *avIface) load() int   { return unstr2(a.v.Load()) }
+func (a *avIface) store(v int) { a.v.Store(strv(v*1000 + 1000)) }
+func (a *avIface) swap(v int) int {
+	return unstr2(a.v.Swap(strv(v*1000 + 1000)))
+}
+func (a *avIface) cas(old, new int) bool {
+	return a.v.CompareAndSwap(strv(old*1000+1000), strv(new*1000+1000))
+}
+
+// unstr2 / the +1000 shift: code v is stored as strv((v+1)*1000), so that code 0 is a non-nil interface value too; a nil
+// interface (nothing stored yet) reads as code 0 like the zero value of the other element types
+func unstr2(x fmt.Stringer) int {
+	if x == nil {
+		return 0
+	}
+	if s, ok := x.(strv); ok && int(s)%1000 == 0 && s >= 1000 {
+		return int(s)/1000 - 1
+	}
+	return -99
+}
+
 func newAV(elem int) av {
 	switch elem {
 	case 0:
 		return &avInt{}
 	case 1:
 		return &avStr{}
+	case 3:
+		return &avIface{}
 	}
 	return &avPt{}
 }
@@ -229,10 +261,10 @@ func genAOp(storeZero bool) *rapid.Generator[AOp] {
 
 var specSeq = pbt.Register(&pbt.Spec[SeqCase]{
 	Property: "C18", Name: "C18.avseq",
-	Rule: "single goroutine: rapid lists of Load/Store/Swap/CompareAndSwap on an initially empty AtomicValue[T], T in {int,string,struct}, values 0..3 (0 = zero value, storable), against the register model " +
+	Rule: "single goroutine: rapid lists of Load/Store/Swap/CompareAndSwap on an initially empty AtomicValue[T], T in {int,string,struct,an interface type (fmt.Stringer)}, values 0..3 (0 = zero value, storable), against the register model " +
 		"(Load = zero value before the first Store; Swap returns the replaced value; once stored CAS succeeds iff current == old; CAS on the still-empty value unconstrained); non-trivial = >=4 ops with a succeeding and a failing CAS",
 	Gen: func(t *rapid.T) SeqCase {
-		return SeqCase{Elem: rapid.IntRange(0, 2).Draw(t, "elem"), Ops: pbt.OpsOf(t, genAOp(true), []int{0, 3, 8, 20}, "ops")}
+		return SeqCase{Elem: rapid.IntRange(0, 3).Draw(t, "elem"), Ops: pbt.OpsOf(t, genAOp(true), []int{0, 3, 8, 20}, "ops")}
 	},
 	Run: RunSeq, Quick: 20000, Thorough: 150000,
 })
@@ -327,10 +359,10 @@ func RunConc(c ConcCase) pbt.Outcome {
 
 var specConc = pbt.Register(&pbt.Spec[ConcCase]{
 	Property: "C18", Name: "C18.avconc",
-	Rule: "E4 under -race: sequential prefix (0..3 ops) + 2..6 goroutines x 1..4 ops (Load/Store/Swap/CAS, values 1..3) on one AtomicValue[T], spin-barrier start, 60 repetitions, atomic-counter stamps; " +
+	Rule: "E4 under -race: sequential prefix (0..3 ops) + 2..6 goroutines x 1..4 ops (Load/Store/Swap/CAS, values 1..3) on one AtomicValue[T] (T: int, string, struct or the interface type fmt.Stringer), spin-barrier start, 60 repetitions, atomic-counter stamps; " +
 		"oracle = linearizability (Wing-Gong) against the register model incl. a final Load; torn/invented struct values map to an impossible code; non-trivial = two CAS/Swap calls of different goroutines overlapped",
 	Gen: func(t *rapid.T) ConcCase {
-		c := ConcCase{Elem: rapid.IntRange(0, 2).Draw(t, "elem"), Procs: rapid.SampledFrom([]int{2, 4, 8, 16}).Draw(t, "procs")}
+		c := ConcCase{Elem: rapid.IntRange(0, 3).Draw(t, "elem"), Procs: rapid.SampledFrom([]int{2, 4, 8, 16}).Draw(t, "procs")}
 		c.Pre = rapid.SliceOfN(genAOp(false), 0, 3).Draw(t, "pre")
 		n := rapid.SampledFrom([]int{2, 2, 3, 4, 6}).Draw(t, "threads")
 		for i := 0; i < n; i++ {
